@@ -10,28 +10,34 @@ pub fn constructor_order_qa(source_unit: SourceUnit) -> HashSet<Loc> {
     //Create a new hashset that stores the location of each qa target identified
     let mut qa_locations: HashSet<Loc> = HashSet::new();
 
-    //Extract the target nodes from the source_unit
-    let target_nodes =
-        ast::extract_target_from_node(Target::FunctionDefinition, source_unit.into());
+    //Extract the contract definitions from the source_unit
+    let contract_definition_nodes =
+        ast::extract_target_from_node(Target::ContractDefinition, source_unit.into());
 
-    let mut fn_counter: u8 = 0; // up to 256 function definitions before reaching the constructor function
+    //The order of functions is checked for each contract on its own
+    for contract_definition_node in contract_definition_nodes {
+        let target_nodes =
+            ast::extract_target_from_node(Target::FunctionDefinition, contract_definition_node);
 
-    //For each target node that was extracted, check for the qa patterns
-    for _node in target_nodes {
-        let contract_part = _node.contract_part().unwrap();
+        //whether a function has been defined before reaching the constructor function
+        let mut function_seen = false;
 
-        if let pt::ContractPart::FunctionDefinition(box_fn_definition) = contract_part {
-            match box_fn_definition.ty {
-                pt::FunctionTy::Constructor => {
-                    if fn_counter > 0 {
-                        qa_locations.insert(box_fn_definition.loc);
-                        break;
+        //For each target node that was extracted, check for the qa patterns
+        for _node in target_nodes {
+            let contract_part = _node.contract_part().unwrap();
+
+            if let pt::ContractPart::FunctionDefinition(box_fn_definition) = contract_part {
+                match box_fn_definition.ty {
+                    pt::FunctionTy::Constructor => {
+                        if function_seen {
+                            qa_locations.insert(box_fn_definition.loc);
+                        }
                     }
-                }
-                // Modifiers must be placed before constructor
-                pt::FunctionTy::Modifier => continue,
-                _ => {
-                    fn_counter += 1;
+                    // Modifiers must be placed before constructor
+                    pt::FunctionTy::Modifier => continue,
+                    _ => {
+                        function_seen = true;
+                    }
                 }
             }
         }
